@@ -13,7 +13,7 @@ ROOT = os.path.dirname(os.path.dirname(os.path.abspath(__file__)))
 sys.path.insert(0, ROOT)
 from engine import common, mbt, tlc  # noqa: E402
 
-TYS = ["int", "float", "str", "bool", "listint", "model", "dc", "optint", "dupa", "dupb", "num", "num"]
+TYS = ["int", "float", "str", "bool", "listint", "model", "dc", "optint", "dupa", "dupb", "num", "num", "plain"]
 
 
 def switches() -> Dict[str, bool]:
